@@ -17,7 +17,7 @@ CONSIST_STEP = lambda: [  # what ConsistSimulation::solve_step / the train simul
 ]
 
 
-def consist_rollup_case(comp, policy="RESGreedy", n=2):
+def consist_rollup_case(comp, policy="RESGreedy", n=2, prop="C11"):
     N = len(comp)
     t = consist_tmpl(comp, n)
     t["pdct"] = Variant(policy, {})
@@ -55,7 +55,7 @@ def consist_rollup_case(comp, policy="RESGreedy", n=2):
         Claim("each locomotive's energy_out accumulates its own pwr_out * dt", lambda c: AND(*[EQ(c.post[f"loco_vec.{j}.state.energy_out"], c.pre[f"loco_vec.{j}.state.energy_out"] + c.post[f"loco_vec.{j}.state.pwr_out"] * dt(c)) for j in range(N)])),
         Claim("no_panic", None, when="nopanic"),
     ]
-    return Case(f"consist_rollup_{comp}_{policy}", "C11", "Consist", t, CONSIST_STEP(), assume, claims,
+    return Case(f"consist_rollup_{comp}_{policy}", prop, "Consist", t, CONSIST_STEP(), assume, claims,
                 bounds={"composition": comp, "policy": policy, "efficiency map points": n, "steps": "1 solve_step sequence from an arbitrary pre-state"},
                 stubs={"utils::interp1d": interp1d_contract, "utils::interp3d": interp3d_contract}, max_paths=60000, timeout_ms=300000, check_side=False,
                 notes=["efficiency-map interpolations replaced by their contracts (C08); derating tables executed exactly",
